@@ -94,8 +94,8 @@ let show_abbrev (a : abbrev) =
 
 (* which entries get the per-offset styles in c02.forest (same rule in the harness) *)
 let sample_indices (n : int) : int list =
-  if n <= 48 then List.init n (fun i -> i) else begin
-    let k = max 6 (2400 / n) in
+  if n <= 24 then List.init n (fun i -> i) else begin
+    let k = max 4 (600 / n) in
     let l = List.init k (fun i -> i * n / k) @ [n - 1] in
     List.sort_uniq compare l
   end
@@ -155,6 +155,12 @@ let model_styles ~nav dbg (h : DieRd.unit_header) (tbl : AbbrevRd.abbrevs) : str
       if full_die then with_err ";" (List.map show_die l) err
       else with_err "," (List.map show_od l) err in
   let tree_s = tree_of None true in
+  let skip_s =
+    match r3 (DieRd.entries_tree dbg h None) with
+    | Error x -> "!" ^ Errnames.name x
+    | Ok t ->
+      let (l, err) = must (DieRd.walk_tree_sel dbg e tbl DieRd.sel_mod3 t) in
+      with_err "," (List.map show_od l) err in
   let at_s = per_off (fun o ->
     match r3 (DieRd.entry_at dbg h tbl o) with
     | Error x -> "!" ^ Errnames.name x | Ok d -> show_die d) in
@@ -167,7 +173,7 @@ let model_styles ~nav dbg (h : DieRd.unit_header) (tbl : AbbrevRd.abbrevs) : str
   let sub_s = per_off (fun o -> tree_of (Some o) false) in
   String.concat " "
     ([ tok true "raw" raw_s; tok nav "ent" ent_s; tok nav "dfs" dfs_s; tok nav "sib" sib_s ]
-     @ [ tok nav "tree" tree_s; tok nav "at" at_s; tok nav "from" from_s; tok nav "sub" sub_s ])
+     @ [ tok nav "tree" tree_s; tok nav "skip" skip_s; tok nav "at" at_s; tok nav "from" from_s; tok nav "sub" sub_s ])
 
 (* the whole result line for one unit + abbreviation section, from the model *)
 let model_line ~nav dbg bigend types (info : Byte0.byte list) (abbrev : Byte0.byte list) : string =
@@ -267,17 +273,20 @@ let gen_wide r e kinds w : gtree =
        if rand_int r 8 = 0 then gen_node r e kinds false [gen_node r e kinds false []]
        else gen_node r e kinds (rand_int r 5 = 0) []))
 
-let gen_forest r e kinds ~small : gtree list * int =
+(* size classes: small (<= ~8 entries, for the exhaustive-offset stream), medium, large (deep chains to
+   300, up to 200 siblings) *)
+let gen_forest r e kinds ~(size : int) : gtree list * int =
+  let small = size = 0 and large = size >= 2 in
   let shape = rand_int r (if small then 5 else 10) in
   let f = match shape with
-    | 0 | 1 | 2 -> [gen_random r e kinds (ref (if small then 6 else 4 + rand_int r 40)) 0]
+    | 0 | 1 | 2 -> [gen_random r e kinds (ref (if small then 6 else 4 + rand_int r (if large then 80 else 30))) 0]
     | 3 -> List.init (2 + rand_int r 3) (fun _ -> gen_random r e kinds (ref (rand_int r 6)) 0)
-    | 4 -> [gen_comb r e kinds (rand_int r (if small then 3 else 12))]
-    | 5 -> [gen_chain r e kinds (pick r [| 1; 2; 5; 17; 60; 150; 300 |])]
-    | 6 -> [gen_wide r e kinds (pick r [| 0; 1; 2; 7; 50; 127; 128; 200 |])]
-    | 7 -> [gen_wide r e kinds (rand_int r 201)]
+    | 4 -> [gen_comb r e kinds (rand_int r (if small then 3 else if large then 25 else 8))]
+    | 5 -> [gen_chain r e kinds (if large then pick r [| 17; 60; 100; 150; 300 |] else pick r [| 1; 2; 3; 5; 8; 13; 17; 30 |])]
+    | 6 -> [gen_wide r e kinds (if large then pick r [| 50; 127; 128; 200 |] else pick r [| 0; 1; 2; 7; 20; 33 |])]
+    | 7 -> [gen_wide r e kinds (rand_int r (if large then 201 else 40))]
     | 8 -> [gen_node r e kinds true []]
-    | _ -> [gen_random r e kinds (ref (10 + rand_int r 80)) 0] in
+    | _ -> [gen_random r e kinds (ref (10 + rand_int r (if large then 80 else 25))) 0] in
   let pad = match rand_int r 6 with 0 -> 1 | 1 -> 1 + rand_int r 5 | _ -> 0 in
   (f, pad)
 
@@ -481,6 +490,17 @@ let spec_line (u : unit_case) : string =
   let tree_s = match u.forest with
     | t :: _ -> join ";" (List.map show_die (pre_tree u.codes BinNums.Z0 hl t))
     | [] -> "?" in
+  let skip_s = match u.forest with
+    | t :: _ ->
+      let rec visit off depth (t : tree) : string list =
+        let me = spf "%s:%d" (sn off) depth in
+        if Z.sign (Z.rem (z_of_n off) (Z.of_int 3)) = 0 then [me]
+        else me :: visit_list (kids_off u.codes off t) (depth + 1) (t_kids t)
+      and visit_list off depth ts = match ts with
+        | [] -> []
+        | k :: r -> visit off depth k @ visit_list (zadd off (tree_size u.codes k)) depth r in
+      join "," (visit hl 0 t)
+    | [] -> "?" in
   let at_s = per (fun _ d _ _ _ -> show_die { d with d_depth = BinNums.Z0 }) in
   let from_s = per (fun i _ dep _ _ ->
     join "," (List.filteri (fun j _ -> j >= i) (Array.to_list ents)
@@ -488,7 +508,7 @@ let spec_line (u : unit_case) : string =
   let sub_s = per (fun _ _ _ _ sub -> join "," (List.map (fun (o, dp) -> spf "%s:%d" (Z.to_string o) dp) sub)) in
   String.concat " "
     [ "hdr=" ^ hdr; "raw=" ^ raw_s; "ent=" ^ fnv raw_s; "dfs=" ^ fnv dfs_s; "sib=" ^ fnv sib_s;
-      "walk=" ^ fnv walk_s; "tree=" ^ fnv tree_s; "at=" ^ fnv at_s; "from=" ^ fnv from_s; "sub=" ^ fnv sub_s ]
+      "walk=" ^ fnv walk_s; "tree=" ^ fnv tree_s; "skip=" ^ fnv skip_s; "at=" ^ fnv at_s; "from=" ^ fnv from_s; "sub=" ^ fnv sub_s ]
 
 (* drop the harness-only token before comparing with the model *)
 let without_walk (s : string) : string =
@@ -504,13 +524,13 @@ let first_diff (a : string) (b : string) : string =
 let case_line stream bigend types info abbrev =
   spf "%s %d %d %s %s" stream (b01 bigend) (b01 types) (hex_of_bytes info) (hex_of_bytes abbrev)
 
-let gen_wellformed r ~small : unit_case =
+let gen_wellformed r ~(size : int) : unit_case =
   let (h0, types) = gen_uheader r in
   let bigend = rand_bool r in
   let e = { version = h0.uh_version; fmt64 = h0.uh_fmt64; address_size = h0.uh_asize; be = bigend } in
   let sib = rand_int r 3 in
   let kinds = Array.init (1 + rand_int r 6) (fun _ -> gen_kind r ~sib) in
-  let (g, pad) = gen_forest r e kinds ~small in
+  let (g, pad) = gen_forest r e kinds ~size in
   let f = to_tree e (fun _ _ -> Z.zero) g in
   build_unit r h0 types bigend f pad
 
@@ -741,7 +761,7 @@ let () =
     ~doc:"well-formed units written by the spec encoder enc_forest: random trees, deep chains (to 300), combs, 0..200 siblings, empty child lists, several top-level entries, null padding; every unit kind / version 2-5 / format / address size / byte order; DW_AT_sibling on none / all / a random subset of abbreviations at any attribute position, widths ref1/2/4/8; abbreviation code schemes sequential, reversed, permuted, sparse, gap, huge; attributes of 30 forms incl. indirect and implicit_const. Expected = preorder of Spec/Forest.v, every navigation style"
     (fun ~seed ~n emit ->
       sharded ~seed ~n emit (fun i r ->
-        let u = gen_wellformed r ~small:(i mod 3 = 0) in
+        let u = gen_wellformed r ~size:(match rand_int r 8 with 0 | 1 | 2 -> 0 | 3 -> 2 | _ -> 1) in
         (case_line "c02.forest" u.bigend u.types u.info u.abbrev, fun dbg ->
           let spec = spec_line u in
           let m = model_line ~nav:false dbg u.bigend u.types u.info u.abbrev in
@@ -777,7 +797,7 @@ let () =
           if fake_sib && rand_int r 3 <> 0 then
             { k with ktmpl = TF (pick r [| F_ref4; F_ref4; F_ref1; F_ref2; F_ref8; F_ref_addr; F_data4; F_ref4 |]) :: k.ktmpl }
           else k) in
-        let (g, pad) = gen_forest r e kinds ~small:true in
+        let (g, pad) = gen_forest r e kinds ~size:0 in
         (* pass 1: layout with placeholder sibling values *)
         let u0 = build_unit r ~scheme:(rand_int r 4) h0 types bigend (to_tree e (fun _ _ -> Z.zero) g) pad in
         let hl = header_len u0.hdr in
